@@ -62,6 +62,7 @@ GdsPathFailing(ev) ==
     (IF ev.lat /\ ev.err = 0 THEN {} ELSE {<<"lattice_or_error">>})
     \cup (IF ev.same_meta THEN {} ELSE {<<"not_plain_polygons_with_type_and_property">>})
     \cup (IF {ev.ptags[i] : i \in DOMAIN ev.ptags} = tags THEN {} ELSE {<<"layers_differ">>})
+    \cup (IF g.limit < 5 \/ \A i \in DOMAIN ev.post : Len(ev.post[i]) <= g.limit THEN {} ELSE {<<"piece_exceeds_limit">>})
     \cup (IF Cardinality(qs) >= 50 THEN {} ELSE {<<"too_few_decisive_samples">>})
     \cup (IF bad = {} THEN {} ELSE {<<"region_differs", CHOOSE b \in bad : TRUE>>})
 
